@@ -35,8 +35,8 @@ def badCount (c : Cfg) : Nat := (c.hosts.filter fun h => !good c h).length
 down (max_fails each), each followed by one try_interval sleep, fit into try_duration, and a
 recorded failure outlives the retry window. -/
 def budget (c : Cfg) : Bool :=
-  decide (c.interval ≥ 1) && decide (c.maxFails * badCount c * c.interval < c.tryDuration) &&
-    decide (c.failTimeout ≥ c.tryDuration)
+  decide (c.interval ≥ 1) && decide (c.maxFails ≥ 1) &&
+    decide (c.maxFails * badCount c * c.interval < c.tryDuration) && decide (c.failTimeout ≥ c.tryDuration)
 
 def sized (c : Cfg) : Bool := decide (c.hosts.length ≤ 2147483648) && c.hosts.all fun h => decide (h.conns ≤ maxInt64)
 
